@@ -18,6 +18,9 @@ def run(ctx):
     ts = []
     for i in range(ns):
         p = D.stream_params(rng)
+        p["feed"] = ("array", "halves", "frame")[i % 3]          # float rows / Python lists mixing ints and floats / one-row DataFrames
+        if p["feed"] == "halves":
+            p["lbnum"] = 0       # the minimum cell size is int(lbound * range): only with lbound = 0 is the tree exactly scale-equivariant
         n = rng.randint(8, 14) * p["window_size"]
         xs = D.bursty_stream(rng, n, rng.randint(1, 3), p["window_size"])
         resets = sorted(rng.sample(range(5, n), rng.randint(0, 1)))
